@@ -101,20 +101,25 @@ Definition add_items (l : Z) (t : node) (names : list Z) (is : list item) : resu
   | Some cs => add_flat l t names cs
   end.
 
-(* build_model_specification on the `configuration` subtree: the model specification's values, then the keyword
-   argument *)
-Definition build_cfg (l_spec l_over : Z) (spec over : dict) : cres node :=
-  match update layers empty_tree spec (Some l_spec) 0 with
+(* build_model_specification on the `configuration` subtree: the user's ~/vivarium.yaml, if there is one
+   (configuration.py 95-97, layer user_configs; no file = the empty dict), the model specification's values, then the
+   keyword argument *)
+Definition build_cfg (l_user l_spec l_over : Z) (user spec over : dict) : cres node :=
+  match update layers empty_tree user (Some l_user) 0 with
   | CErr e => CErr e
-  | COk t1 => update layers t1 over (Some l_over) 0
+  | COk t0 =>
+    match update layers t0 spec (Some l_spec) 0 with
+    | CErr e => CErr e
+    | COk t1 => update layers t1 over (Some l_over) 0
+    end
   end.
 
 Record context := { c_cfg : node; c_managers : list Z; c_components : list Z }.
 
 (* SimulationContext.__init__: configuration, managers (their defaults at layer [l_mgr]), then the components *)
-Definition build_context (l_mgr l_comp l_spec l_over : Z) (mgrs : list centry) (spec over : dict) (is : list item)
-  : result context :=
-  match build_cfg l_spec l_over spec over with
+Definition build_context (l_user l_mgr l_comp l_spec l_over : Z) (mgrs : list centry) (user spec over : dict)
+  (is : list item) : result context :=
+  match build_cfg l_user l_spec l_over user spec over with
   | CErr _ => Rejected EConfig
   | COk t2 =>
     match add_flat l_mgr t2 [] mgrs with
@@ -163,9 +168,11 @@ Definition belowb (l : list Z) (x y : Z) : bool :=
   match split_at x l with Some (_, r) => zmem y r | None => false end.
 (* what the property needs of the layer table: layer names distinct, manager and component defaults written strictly
    below BOTH user layers (model specification, keyword arguments) *)
-Definition layers_okb (layers : list Z) (l_mgr l_comp l_spec l_over : Z) : bool :=
+Definition layers_okb (layers : list Z) (l_user l_mgr l_comp l_spec l_over : Z) : bool :=
   znodupb layers && belowb layers l_comp l_spec && belowb layers l_comp l_over &&
-  belowb layers l_mgr l_spec && belowb layers l_mgr l_over.
+  belowb layers l_mgr l_spec && belowb layers l_mgr l_over &&
+  (* ... and the ~/vivarium.yaml layer below both of them too (its place relative to the defaults is not constrained) *)
+  belowb layers l_user l_spec && belowb layers l_user l_over.
 
 (* ------------------------------------------------------------------------------------------------------------
    Correspondence stream `ctx`: a real SimulationContext built from a generated forest of probe components, a model
@@ -174,6 +181,7 @@ Definition layers_okb (layers : list Z) (l_mgr l_comp l_spec l_over : Z) : bool 
    reads and modification attempts as a [cop] list with the outcomes (Config.run_cops).                           *)
 Record ctx_obs := {
   x_forest : list item;
+  x_user : dict;                  (* content of ~/vivarium.yaml ([] = no such file) *)
   x_spec : dict;
   x_over : dict;
   x_built : bool;                 (* construction succeeded *)
@@ -191,9 +199,9 @@ Fixpoint wf_itemb (i : item) : bool :=
   | Group ms => (fix all (l : list item) : bool := match l with [] => true | x :: r => wf_itemb x && all r end) ms
   end.
 
-Definition check_ctx (layers : list Z) (l_mgr l_comp l_spec l_over : Z) (mgrs : list centry) (c : ctx_obs) : bool :=
-  forallb wf_itemb (x_forest c) && wf_datab (DDict (x_spec c)) && wf_datab (DDict (x_over c)) &&
-  match build_context layers l_mgr l_comp l_spec l_over mgrs (x_spec c) (x_over c) (x_forest c) with
+Definition check_ctx (layers : list Z) (l_user l_mgr l_comp l_spec l_over : Z) (mgrs : list centry) (c : ctx_obs) : bool :=
+  forallb wf_itemb (x_forest c) && wf_datab (DDict (x_user c)) && wf_datab (DDict (x_spec c)) && wf_datab (DDict (x_over c)) &&
+  match build_context layers l_user l_mgr l_comp l_spec l_over mgrs (x_user c) (x_spec c) (x_over c) (x_forest c) with
   | Ok ctx =>
       x_built c &&
       match setup_context ctx with
@@ -208,23 +216,24 @@ Definition check_ctx (layers : list Z) (l_mgr l_comp l_spec l_over : Z) (mgrs : 
       | None => true
       | Some (ok, log) =>
           (* the batch was refused by the component stage; what had been registered before is set up *)
-          match build_cfg layers l_spec l_over (x_spec c) (x_over c) with
+          match build_cfg layers l_user l_spec l_over (x_user c) (x_spec c) (x_over c) with
           | COk t2 =>
               match add_flat layers l_mgr t2 [] mgrs with
               | Ok (t3, mnames) =>
                   let reg := add_flat_prefix layers l_comp t3 [] (pre_all (x_forest c)) in
                   let clog := skipn (length mnames) log in
+                  let all_names := map fst (pre_all (x_forest c)) in
                   if ok
-                  then (* nothing at or beyond the offending component is registered: the components set up are the first
-                          k of the model's prefix (k = all of it today; 0 would be a roll-back), each once, managers
-                          first, parents first *)
+                  then (* whatever stayed registered (today: the pre-order prefix before the offending component,
+                          [add_flat_prefix]; another valid flattening order registers another set) is set up: components
+                          of the forest only, each once, managers first, parents first *)
                        same_multiset (firstn (length mnames) log) mnames &&
-                       existsb (fun k => same_multiset clog (firstn k reg)) (seq 0 (S (length reg))) &&
-                       znodupb log &&
-                       forallb (fun e => negb (Nat.eqb (count_z (snd e) (map fst (pre_all (x_forest c)))) 1)  (* ambiguous name *)
+                       forallb (fun n => zmem n all_names) clog && znodupb log &&
+                       forallb (fun e => negb (Nat.eqb (count_z (snd e) all_names) 1)  (* ambiguous name *)
                                          || negb (zmem (snd e) clog) || before (fst e) (snd e) clog)
                                (edges_all (x_forest c))
-                  else negb (znodupb (mnames ++ reg))
+                  else (* setup refused: only a component named like a manager can be the reason *)
+                       existsb (fun n => zmem n mnames) all_names || negb (znodupb (mnames ++ reg))
               | _ => false
               end
           | CErr _ => false
